@@ -103,6 +103,9 @@ def line(req):
     if op == 'makeup':
         _, nextra, ps = req
         return 'makeup %s %s' % ('.'.join(str(900 + i) for i in range(nextra)) or '_', core.params_line(ps))
+    if op == 'chain':
+        from . import real_r7
+        return real_r7.chain_line(req)
     if op == 'stream-timeout':
         return 'stream-timeout %s' % (req[1],)
     raise core.HarnessError('unknown op %r' % (op,))
@@ -175,6 +178,9 @@ def parse_model(req, ml):
         return ('ok', tuple(sorted(int(x) for x in toks[1].split('.'))) if len(toks) > 1 and toks[1] != '_' else ())
     if op == 'makeup':
         return ('ok', int(toks[1]), toks[2] if len(toks) > 2 else '')
+    if op == 'chain':
+        from . import real_r7
+        return real_r7.parse_chain(ml)
     return core.parse_model_answer(ml)
 
 
@@ -304,6 +310,9 @@ def _real(req, plain, mk, disturb=False):
         return real_mod.OPS[op](req)
     if op in real_rt.OPS:
         return real_rt.OPS[op](req)
+    from . import real_r7
+    if op in real_r7.OPS:
+        return real_r7.OPS[op](req)
     raise core.HarnessError('unknown op %r' % (op,))
 
 
